@@ -10,8 +10,15 @@ vertex by vertex with the real `roll_pass.contour_lines`; the symbolic hook inte
 is run on exactly the read sequences the real fresh passes are put through (values, AttributeErrors, `__cache__` keys,
 resolution order of the real `Hook.functions`), and on the life cycle "constructed bare - looked at - member assigned"
 (`lateSession`: answers of the looks, of the reads, cache keys); every closed formula is evaluated against the python function
-it came from.
-The independent oracle checks the property text on the real objects.
+it came from.  (c) `usable_cross_section` / `usable_cross_section3`: which helper is called and the term handed over for every
+parameter of the helper (defaults of the helper resolved), and the helper's clip / turn steps, are re-read as well
+(`two_usable_cs`, `two_usable_cs_helper`, ...); K - the value the generated call hands over (read through the interpreter, on
+passes with the default, an explicitly given and a plug-in supplied `usable_width`) must make the REAL helper reproduce the real
+`usable_cross_section`, and sample points of the opening followed through the generated steps must be kept / discarded as
+the real polygon contains them or not.
+The independent oracle checks the property text on the real objects - also on passes one of whose quantities (usable_width,
+gap, height, inscribed_circle_diameter) reaches the pass on another route of the hook system than the usual one (explicit
+value, explicit callable, assignment, implementation registered on a throw-away subclass, ...; see `_make_pass`).
 """
 import itertools
 import math
@@ -33,13 +40,19 @@ RULE = ("every groove class (20 parametric classes from a catalogue of feasible 
         "fresh unsolved passes x feeding each derived member back into a fresh pass x the second life cycle of a pass object: "
         "constructed without any member, looked at 0-3 times while undetermined (repr / str / contour_lines / members / "
         "usable_width / usable and tip cross-section / tip_width / technological contour / target_width), the given member "
-        "assigned afterwards, then a random read order, the contour statements and the usable cross-section. non-trivial = "
-        "gap > 0 or a derived member given; distinct by (class, rounded parameters, gap, given, order[, looks]).")
+        "assigned afterwards, then a random read order, the contour statements and the usable cross-section x per (case, given "
+        "member) one pass a quantity of which comes on another route of the hook system: usable_width given explicitly (equal "
+        "to the default, 0.3-1 of it, or - gap > 0 - beyond it as far as the roll faces reach) as constructor value / callable / "
+        "assignment / implementation on a throw-away subclass / explicit over such an implementation; the given member as "
+        "callable / assignment / implementation on a throw-away subclass; a throw-away subclass without implementations; the "
+        "roll an instance of a throw-away Roll subclass or with explicitly given contour points. non-trivial = "
+        "gap > 0 or a derived member given; distinct by (class, rounded parameters, gap, given, order[, looks | route]).")
 ASSUMPTIONS = [
     "shapely/GEOS: translate/rotate act vertex-wise with the arithmetic modelled in PassGeom.rotPt (validated vertex by vertex "
     "on every case); clip_by_rect of a line string to an x-window is modelled by its extreme coordinates only (validated through "
-    "height3); Polygon/clip_by_rect of the usable cross-section is NOT modelled - spans/symmetry of the usable cross-section are "
-    "checked by the oracle only (partial)",
+    "height3); GEOS' Polygon/clip_by_rect of the usable cross-section is NOT modelled: the theorems follow single points of the "
+    "opening through the generated clip / turn steps of the helper (validated on sample points against the real polygon); that "
+    "the result is ONE polygon reaching the clip lines and its symmetry are checked by the oracle only (partial)",
     "IEEE rounding: theorems are over the reals; conversions are compared with rtol 1e-9 on floats",
     "the groove contour is an arbitrary vertex list in the theorems; that a real groove's end vertices lie on the face line "
     "through the usable-width point at the pad angle (C03/C10 territory) is a hypothesis, checked on every generated groove",
@@ -65,6 +78,7 @@ NAMES = {
     (T3, "gap3_from_height"): "three_gap_from_height", (T3, "gap3_from_icd"): "three_gap_from_icd",
     (T3, "height3"): "three_height",
 }
+USABLE_CS = {"two": (T2, "TwoRollPass"), "three": (T3, "ThreeRollPass")}
 CONTOURS = {"two": ("roll_pass/two_roll_pass.py", "TwoRollPass", 2), "three": ("roll_pass/three_roll_pass.py", "ThreeRollPass", 3)}
 
 
@@ -175,6 +189,31 @@ def translate(ctx):
                 exprs = [e for (g, e, k) in impl.alts if k == "expr"]
                 L.append(f"def {name}_e : Expr := " + (pyexpr.lean_expr(exprs[0]) if exprs else f".var \"<no-formula:{impl.fn}>\""))
             L.append("")
+    # (c) the usable cross-section: which helper the hook implementation calls and which term it hands over for every
+    # parameter (defaults of the helper resolved), and the helper's clip / turn steps
+    cs_calls = {}
+    for which, (rel, host) in USABLE_CS.items():
+        path = os.path.join(gen.REPO, "pyroll", "core", rel)
+        call, helper = cc.HelperCall(), cc.Helper()
+        call.host, call.hook, call.fn, call.helper = host, "usable_cross_section", "<untranslatable>", "<untranslatable>"
+        helper.fn = "<untranslatable>"
+        try:
+            call = cc.extract_helper_call(path, host, "usable_cross_section", rel)
+            helper = cc.extract_helper(os.path.join(gen.REPO, "pyroll", "core", call.helper_rel), call.helper)
+            cc.bind(call, helper)
+        except (pyexpr.Untranslatable, OSError, SyntaxError) as ex:
+            ctx.tie_breaks.append(f"translator: usable_cross_section of {host} (pyroll/core/{rel}) / its helper is outside the "
+                                  f"translatable subset: {ex}")
+            call.args = []
+        cs_calls[which] = (call, helper)
+        L.append(f"/-- pyroll/core/{rel}:{call.lineno} `{call.fn}` on `{host}.usable_cross_section`: the term handed to "
+                 f"`{call.helper}` for each of its parameters" +
+                 (f" (defaults of the helper used for: {', '.join(call.defaulted)})" if call.defaulted else "") + " -/")
+        L.append(f"def {which}_usable_cs : HelperCall :=\n    {cc.lean_call(call)}")
+        L.append(f"/-- pyroll/core/{getattr(call, 'helper_rel', '?')}:{helper.lineno} `{helper.fn}`: clip / turn steps on the polygon "
+                 f"enclosed by `contour_lines`, loops unrolled -/")
+        L.append(f"def {which}_usable_cs_helper : Helper :=\n    {cc.lean_helper(helper)}")
+        L.append("")
     for which in ("two", "three"):
         pl = placements[which]
         L.append(f"def {which}_cls : PassClass :=")
@@ -190,7 +229,8 @@ def translate(ctx):
     ctx.notes.setdefault("generated", {})["Gen/C09Contours.lean"] = {
         "placements": {w: [n for n, _ in placements[w].lines] for w in placements},
         "clip_impls": sorted(clip_impls), "rewritten": changed}
-    ctx.c09 = {"per": per, "clip_impls": clip_impls, "placements": placements, "clips": all_clips, "clip_vars": clip_vars}
+    ctx.c09 = {"per": per, "clip_impls": clip_impls, "placements": placements, "clips": all_clips, "clip_vars": clip_vars,
+               "cs_calls": cs_calls}
 
 
 # --------------------------------------------------------------------------------------------------------------
@@ -647,6 +687,259 @@ def _late_k(ctx, which, groove, vals, tolv, replay0, given, looks, order, lean_l
                         dict(replay0, life_cycle=LATE, looked_at=list(looks), given=given, value=vals[given], order=list(order))))
 
 
+# --------------------------------------------------------------------------------------------------------------
+# routes on which a quantity of the opening reaches the pass
+# --------------------------------------------------------------------------------------------------------------
+# The quantities the opening geometry reads (usable_width, gap, height, inscribed_circle_diameter) are hooks: a value usually
+# comes from the registered default implementation (usable_width) or from a constructor argument (the given member), but the
+# hook system offers other routes, and a plug-in uses them.  The property speaks of THE usable width / gap / height of the
+# pass, whichever route it came on:
+#   explicit              constructor keyword argument (for usable_width: a value that need not be the groove's)
+#   explicit-callable     constructor keyword argument that is a function of the pass (Hook.__get__ calls it)
+#   assigned              setattr on the fresh pass, before anything is read
+#   plugin                an implementation registered on a throw-away subclass of the pass class (what a plug-in package does
+#                         with its own pass type); nothing is registered on pyroll's own classes
+#   explicit-over-plugin  both: the explicit value is the value of the pass
+#   subclass              a throw-away subclass without any implementation of its own (hook None)
+# and the roll (`roll.groove`, `roll.contour_line`) may be an instance of a throw-away Roll subclass or carry its
+# contour points as an explicitly given value (equal to the groove's).
+ROUTES_UW = ["explicit", "explicit", "explicit-callable", "assigned", "plugin", "plugin", "explicit-over-plugin"]
+ROUTES_MEMBER = ["explicit-callable", "assigned", "plugin", "plugin"]
+ROLL_HOW = ["plain", "plain", "plain", "plain", "subclass", "contour-points-given"]
+
+
+def _make_pass(which, groove, route, roll_how="plain", **given):
+    """a fresh pass; `route` = None | {"hook": name | None, "how": one of the routes above, "value": float}"""
+    import numpy as np
+    from pyroll.core import Roll, TwoRollPass, ThreeRollPass
+    base = TwoRollPass if which == "two" else ThreeRollPass
+    roll_cls = type("C09ThrowAwayRoll", (Roll,), {}) if roll_how == "subclass" else Roll
+    roll_kw = {"contour_points": np.array(groove.contour_points, dtype=float)} if roll_how == "contour-points-given" else {}
+    roll = roll_cls(groove=groove, nominal_radius=10 * float(groove.usable_width), **roll_kw)
+    how = route["how"] if route else "explicit"
+    hook = route["hook"] if route else None
+    cls = base
+    kw = dict(given)
+    if how in ("plugin", "explicit-over-plugin", "subclass"):
+        cls = type("C09ThrowAwayPass", (base,), {})
+    if how == "plugin":
+        v = route["value"]
+        getattr(cls, hook)(lambda self, _v=v: _v)
+        kw.pop(hook, None)
+    elif how == "explicit-over-plugin":
+        v = route["value"]
+        getattr(cls, hook)(lambda self, _v=v: 0.5 * _v)       # what the plug-in would answer; the explicit value overrides it
+        kw[hook] = v
+    elif how == "explicit":
+        if hook is not None:
+            kw[hook] = route["value"]
+    elif how == "explicit-callable":
+        v = route["value"]
+        kw[hook] = (lambda self, _v=v: _v)
+    elif how == "assigned":
+        kw.pop(hook, None)
+    rp = cls(roll=roll, **kw)
+    if how == "assigned":
+        setattr(rp, hook, route["value"])
+    return rp
+
+
+def _random_route(rng, which, given, gap, uw_pass, lines):
+    """-> (route, roll_how); the value of a member route is filled in by the caller"""
+    import numpy as np
+    roll_how = rng.choice(ROLL_HOW)
+    k = rng.random()
+    if k < 0.12 or not math.isfinite(uw_pass):
+        return {"hook": None, "how": "subclass", "value": None}, roll_how
+    if k < 0.40:
+        return {"hook": given, "how": rng.choice(ROUTES_MEMBER), "value": None}, roll_how
+    # a usable width that is not the default one.  Which widths can the usable cross-section span at all?  The opening between
+    # the rolls reaches as far as the roll faces do: two rolls |z| <= the end of the contour, three rolls up to the outer end
+    # of the faces towards the gap - and for gap 0 no further than the default usable width (the faces touch there).
+    f = rng.random()
+    if f < 0.25:
+        w = uw_pass                                   # the same value, given explicitly
+    elif f < 0.8 or gap <= 0:
+        w = uw_pass * rng.uniform(0.3, 1.0)
+    else:
+        if which == "two":
+            wmax = 2 * min(float(np.abs(ln[:, 0]).max()) for ln in lines)
+        else:
+            wmax = 2 * max(float(ln[:, 1].max()) for ln in lines)
+        w = uw_pass + max(0.0, 0.9 * (wmax - uw_pass)) * rng.uniform(0, 1)
+    return {"hook": "usable_width", "how": rng.choice(ROUTES_UW), "value": w}, roll_how
+
+
+def _route_case(ctx, which, groove, gap, vals, uw_pass, tolv, replay0, given, route, roll_how, order, do_cs,
+                lean_lines=None, lean_expect=None, cs_call=None):
+    """the property statements on a pass one of whose quantities came on another route than the usual one.  Violation keys
+    are prefixed `<how>-<hook>-` (`subclass-` when nothing is overridden)."""
+    import numpy as np
+    how, hook = route["how"], route["hook"]
+    kp = f"{how}-{hook}-" if hook else f"{how}-"
+    members = MEMBERS[which]
+    if hook in members:
+        route = dict(route, value=vals[given])
+    replay = dict(replay0, provenance=dict(route, roll=roll_how), given=given, value=vals[given], order=list(order))
+    ctx.count(f"route:{how}:{hook or '-'}")
+    ctx.count("route-roll:" + roll_how)
+    ctx.case([which, replay0["groove"]["cls"], round(gap / float(groove.usable_width), 9), "route", how, hook,
+              None if route["value"] is None else round(route["value"] / float(groove.usable_width), 9), roll_how, given, order])
+    depth = float(groove.depth)
+    contour = np.array(groove.contour_points, dtype=float)
+    try:
+        # the consistent opening this pass belongs to: same routes, the gap given -> its members (a usable width that is not
+        # the default one is part of the description of the pass; what the derived members are is read from such a pass)
+        if hook == "usable_width":
+            refp = _make_pass(which, groove, route, roll_how, gap=gap)
+            ref_vals = {"gap": gap}
+            for m in members[1:]:
+                r = _read(refp, m)
+                if r[0] != "ok":
+                    ctx.violation(f"{kp}{which}-read-{m}-given-gap-fails", f"usable_width = {route['value']} ({how}): {m} "
+                                  f"unavailable with gap given: {r[1]}", dict(replay, given="gap", value=gap, order=[m]))
+                    return
+                ref_vals[m] = r[1]
+        else:
+            ref_vals = vals
+        rp = _make_pass(which, groove, route, roll_how, **{given: ref_vals[given]})
+        if how == "plugin" and hook in members:
+            # a member supplied by an implementation counts as given once the pass has answered it (the conversions test
+            # has_set_or_cached): it is read first
+            order = [hook] + [m for m in order if m != hook]
+            replay["order"] = list(order)
+        got = []
+        for name in order:
+            r = _read(rp, name)
+            got.append((name, r))
+            if r[0] != "ok":
+                ctx.violation(f"{kp}{which}-read-{name}-given-{given}-fails",
+                              f"pass with {hook or 'nothing'} supplied {how}: reading {name} (order {order}) answered {r[1]}",
+                              replay)
+            elif name in ref_vals and abs(r[1] - ref_vals[name]) > tolv:
+                ctx.violation(f"{kp}{which}-feedback-{given}-to-{name}",
+                              f"pass with {hook or 'nothing'} supplied {how}, {given} = {ref_vals[given]}: {name} = {r[1]}, "
+                              f"the pass with gap = {gap} answers {ref_vals[name]}", replay)
+        cache = [k for k in rp.__cache__ if k in HOOKS[which]]
+        # K: the interpreter on the generated tables against this pass - `usable_width` in `__dict__` (explicit routes) and/or
+        # the class of a plug-in (one more implementation on a most-derived class): values, AttributeErrors, cache keys
+        in_dict = ([] if (how == "plugin" and hook == given) else [given]) + \
+                  (["usable_width"] if hook == "usable_width" and how != "plugin" else [])
+        mcls = which + (f"+{hook}" if how in ("plugin", "explicit-over-plugin") else "")
+        env0 = [(given, ref_vals[given])] if given in in_dict else []
+        env0 += [("roll.groove.usable_width", float(groove.usable_width)), ("roll.groove.depth", depth)]
+        if "usable_width" in in_dict:
+            env0.append(("usable_width", route["value"]))
+        if how in ("plugin", "explicit-over-plugin"):
+            env0.append((f"plugin.{hook}", route["value"] if how == "plugin" else 0.5 * route["value"]))
+        modelled = lean_lines is not None and (hook == "usable_width" or (how == "plugin" and hook in members))
+        if modelled:
+            if all(r[0] in ("ok", "attr") for _, r in got):
+                lean_lines.append("env " + " ".join(f"{k}={stub.bits(v)}" for k, v in env0))
+                lean_expect.append(("env", None, replay))
+                lean_lines.append(f"interp {mcls} {','.join(in_dict) or '-'} {','.join(order)}")
+                lean_expect.append(("interp", (got, cache, tolv), replay))
+        # THE usable width of the pass: what the pass answers - which is the supplied value when one was supplied
+        r = _read(rp, "usable_width")
+        if r[0] != "ok":
+            ctx.violation(f"{kp}{which}-read-usable_width-fails", f"usable_width unavailable: {r[1]}", replay)
+            return
+        uw_own = r[1]
+        if hook == "usable_width" and abs(uw_own - route["value"]) > 1e-12 * abs(route["value"]):
+            ctx.count("route-usable-width-read-differs-from-supplied")     # the hook system's business (C01), not C09's
+        r = _get(rp, "contour_lines")
+        if r[0] != "ok":
+            ctx.violation(f"{kp}{which}-contour-lines-unavailable", f"contour_lines raised {r[1]}", replay)
+            return
+        lines = _oracle_geometry(ctx, which, groove, gap, rp, replay, kp=kp, cl=r[1])
+        uw = float(groove.usable_width)
+        if which == "two" and len(lines) == 2:
+            if abs(ref_vals["height"] - (gap + 2 * depth)) > tolv:
+                ctx.violation(kp + "two-roll-height", f"height {ref_vals['height']} != gap + 2*depth = {gap + 2 * depth}", replay)
+            disc = 2 * abs(depth - float(contour[:, 1].max()))
+            ext = float(lines[0][:, 1].max() - lines[1][:, 1].min())
+            if abs(ext - ref_vals["height"]) > tolv + disc:
+                ctx.violation(kp + "two-roll-height-extent", f"height {ref_vals['height']} but the contours are {ext} apart at "
+                              f"the bottoms", replay)
+        elif which == "three" and len(lines) == 3:
+            inside = contour[np.abs(contour[:, 0]) <= uw / 2]
+            disc = 2 * abs(depth - (float(inside[:, 1].max()) if len(inside) else float("nan")))
+            sel = lines[1][np.abs(lines[1][:, 0]) <= uw / 2]
+            bottom = -float(sel[:, 1].min()) if len(sel) else float("nan")
+            if not abs(2 * bottom - ref_vals["height"]) <= tolv + disc:
+                ctx.violation(kp + "three-roll-height-extent", f"height {ref_vals['height']} but the lower groove bottom is at "
+                              f"-{bottom}", replay)
+        if do_cs and (gap > 0 or which == "two"):
+            # the usable cross-section spans exactly the usable width OF THE PASS (uw_own), on whichever route it came
+            _oracle_usable_cs(ctx, which, rp, uw_own, dict(replay, read="usable_cross_section"), kp=kp)
+            if lean_lines is not None and cs_call is not None and gap > 0 and (modelled or hook is None or hook in members):
+                _cs_k(ctx, which, rp, uw_own, mcls, in_dict, env0, cs_call, replay, lean_lines, lean_expect)
+    except _ImplRaised as ex:
+        ctx.violation(f"{kp}{which}-hook-raises", f"pass with {hook or 'nothing'} supplied {how}: {ex}"[:300], replay)
+
+
+def _cs_k(ctx, which, rp, uw_own, mcls, in_dict, env0, cs_call, replay, lean_lines, lean_expect):
+    """K for the usable cross-section: (1) `handed`: the value the generated call hands to the helper on this pass (read
+    through the interpreter) must be the value with which the REAL helper reproduces the real `usable_cross_section`;
+    (2) `keep`: points of the opening followed through the generated steps of the helper must be kept / discarded as the real
+    polygon contains them or not"""
+    import importlib
+    import numpy as np
+    from shapely import Polygon, Point
+    call, helper = cs_call
+    if not call.args or not helper.ops:
+        return
+    try:
+        ucs = rp.usable_cross_section
+        lines = [np.array(g.coords) for g in rp.contour_lines.geoms]
+    except Exception as ex:
+        if _in_pyroll(ex):
+            return                  # reported by the oracle
+        raise
+    if ucs.geom_type != "Polygon" or ucs.is_empty:
+        return
+    mod = importlib.import_module("pyroll.core." + call.helper_rel[:-3].replace("/", "."))
+    fn = getattr(mod, call.helper, None)
+    if fn is None:
+        ctx.tie_breaks.append(f"correspondence: helper {call.helper} not importable")
+        return
+    if in_dict:
+        # (a member supplied by a plug-in implementation is only available to the conversions once it has been read: the
+        # model's `handed` starts from a fresh pass, the real pass has answered the member before - not compared)
+        lean_lines.append("env " + " ".join(f"{k}={stub.bits(v)}" for k, v in env0))
+        lean_expect.append(("env", None, replay))
+        lean_lines.append(f"handed {mcls} {','.join(in_dict)}")
+        lean_expect.append(("handed", (rp, fn, helper.fn, ucs), replay))
+    # sample points of the opening: random ones, and points straddling the usable width towards the gaps (two rolls: +-z,
+    # three rolls: 90 / 210 / 330 degrees)
+    whole = Polygon(np.concatenate(lines))
+    if not whole.is_valid or whole.is_empty:
+        return
+    x0, y0, x1, y1 = whole.bounds
+    scale = max(abs(x0), abs(y0), abs(x1), abs(y1))
+    tolb = 1e-7 * scale
+    rng = ctx.rng
+    cand = [(rng.uniform(x0, x1), rng.uniform(y0, y1)) for _ in range(10)]
+    for ang in ((0, 180) if which == "two" else (90, 210, 330)):
+        for f in (0.97, 1.03):
+            a = math.radians(ang + rng.uniform(-3, 3))
+            cand.append((f * uw_own / 2 * math.cos(a) / math.cos(math.radians(3)), f * uw_own / 2 * math.sin(a) / math.cos(math.radians(3))))
+    pts = []
+    for (x, y) in cand:
+        pt = Point(x, y)
+        if whole.contains(pt) and whole.boundary.distance(pt) > tolb and ucs.boundary.distance(pt) > tolb:
+            pts.append((x, y))
+    if not pts:
+        return
+    env1 = [(k, v) for k, v in env0 if k != "usable_width"] + [("usable_width", uw_own)]
+    if not any(k == "gap" for k, _ in env1):
+        env1.append(("gap", float(rp.gap)))
+    lean_lines.append("env " + " ".join(f"{k}={stub.bits(v)}" for k, v in env1))
+    lean_expect.append(("env", None, replay))
+    lean_lines.append(f"keep {which} " + " ".join(f"{stub.bits(x)} {stub.bits(y)}" for x, y in pts))
+    lean_expect.append(("keep", (pts, ucs, tolb), replay))
+
+
 def _model_chain(per_which, hook, mro):
     out = []
     for t in (0, 1, 2):
@@ -655,8 +948,12 @@ def _model_chain(per_which, hook, mro):
     return out
 
 
-def _one_case(ctx, which, desc, groove, gap, lean_lines, lean_expect, do_cs=True, full_k=True, pre=None, late=None):
+def _one_case(ctx, which, desc, groove, gap, lean_lines, lean_expect, do_cs=True, full_k=True, pre=None, late=None,
+              prov=None):
     import numpy as np
+    cs_calls = (getattr(ctx, "c09", None) or {}).get("cs_calls")
+    cs_call = cs_calls[which] if cs_calls else None
+    model_k = getattr(ctx, "model_available", True) and cs_call is not None
     members = MEMBERS[which]
     uw, depth = float(groove.usable_width), float(groove.depth)
     replay0 = {"pass": which, "groove": desc, "gap": gap}
@@ -780,6 +1077,17 @@ def _one_case(ctx, which, desc, groove, gap, lean_lines, lean_expect, do_cs=True
             k_late += [([x], members + ["usable_width"]) for x in ml] + [(ml, members), (ml[::-1] + ml, ["usable_width"] + members)]
         for (kl, ko) in k_late:
             _late_k(ctx, which, groove, vals, tolv, replay0, given, kl, ko, lean_lines, lean_expect)
+        # the same member given to a pass one of whose quantities comes on another route than the usual one
+        forced = prov is not None and prov.get("given") == given
+        if forced:
+            route = {k: prov["provenance"].get(k) for k in ("hook", "how", "value")}
+            roll_how, order = prov["provenance"].get("roll", "plain"), list(prov["order"])
+        else:
+            route, roll_how = _random_route(ctx.rng, which, given, gap, uw_pass, lines)
+            order = ctx.rng.choice(all_orders)
+        k_cs = model_k and (full_k or ctx.rng.random() < 0.35)
+        _route_case(ctx, which, groove, gap, vals, uw_pass, tolv, replay0, given, route, roll_how, order, do_cs,
+                    lean_lines if k_cs else None, lean_expect, cs_call)
     if len(ctx.samples) < 3:
         ctx.sample({"pass": which, "groove": desc, "gap": gap, "derived": vals})
 
@@ -812,6 +1120,58 @@ def _check_lean(ctx, lean_lines, lean_expect):
             else:
                 ctx.validated()
                 ctx.count("placement-vertices-compared", sum(len(e) for e in exp))
+        elif kind == "handed":
+            rp, fn, helper_fn, ucs = exp
+            try:
+                kw = {}
+                for part in o.split():
+                    k, v = part.split("=")
+                    if not k.startswith(helper_fn + ":") or v.startswith("!"):
+                        raise ValueError(part)
+                    kw[k[len(helper_fn) + 1:]] = stub.unbits(v)
+            except Exception:
+                ctx.disagreement(f"usable cross-section: the model hands over {o[:80]!r} ({line})", replay)
+                continue
+            try:
+                again = fn(rp, **kw)
+            except Exception as ex:
+                ctx.disagreement(f"usable cross-section: the real helper {helper_fn} raised {type(ex).__name__} on what the model "
+                                 f"hands over ({kw})", replay)
+                continue
+            a, b = np.array(ucs.exterior.coords), np.array(again.exterior.coords) if again.geom_type == "Polygon" else None
+            if b is None or a.shape != b.shape or np.abs(a - b).max() > 1e-12 * max(float(np.abs(a).max()), 1e-300):
+                ctx.disagreement(f"usable cross-section: the real implementation does not answer what the real helper {helper_fn} "
+                                 f"gives for the values the generated call hands over ({kw}; {line})", replay)
+            else:
+                ctx.validated()
+        elif kind == "keep":
+            from shapely import Point
+            pts, ucs, tolb = exp
+            toks = o.split()
+            if len(toks) != len(pts):
+                ctx.disagreement(f"model driver: {o[:80]!r} on a keep line", replay)
+                continue
+            bad = None
+            for (x, y), t in zip(pts, toks):
+                inside = ucs.contains(Point(x, y))
+                if t == "-":
+                    if inside:
+                        bad = f"the model discards ({x}, {y}), the real usable cross-section contains it"
+                else:
+                    try:
+                        qx, qy = [stub.unbits(v) for v in t.split(",")]
+                    except Exception:
+                        bad = f"unparsable {t[:40]!r}"
+                        break
+                    if ucs.distance(Point(qx, qy)) > tolb:
+                        bad = f"the model keeps ({x}, {y}) at ({qx}, {qy}), which is not in the real usable cross-section"
+                    elif not inside and math.hypot(qx - x, qy - y) <= tolb:
+                        bad = f"the model keeps ({x}, {y}), the real usable cross-section does not contain it"
+            if bad:
+                ctx.disagreement(f"usable cross-section, generated helper steps vs real polygon: {bad}", replay)
+            else:
+                ctx.validated()
+                ctx.count("usable-cs-points-compared", len(pts))
         elif kind == "late":
             seen, got, cache, tolv = exp
             try:
@@ -937,4 +1297,5 @@ def replay(ctx, data):
     g = _build_groove(r["groove"])
     lines, expect = [], []
     late = {k: r[k] for k in ("given", "looked_at", "order")} if r.get("life_cycle") == LATE else None
-    _one_case(ctx, r["pass"], r["groove"], g, r["gap"], lines, expect, pre=r.get("read_before"), late=late)
+    prov = {k: r[k] for k in ("given", "provenance", "order")} if r.get("provenance") and r.get("order") else None
+    _one_case(ctx, r["pass"], r["groove"], g, r["gap"], lines, expect, pre=r.get("read_before"), late=late, prov=prov)
